@@ -28,6 +28,12 @@ def family(job):
     d = tempfile.mkdtemp(prefix='verif_c09_', dir=shm)
     try:
         return _family(job, d)
+    except common.MachineryError:
+        raise
+    except Exception as e:
+        import traceback
+        return {'job': job, 'kind': 'multisig', 'traces': [], 'keys': [], 'desc': {}, 'setup_error': None, 'problems': [],
+                'fatal': '%r %s' % (e, traceback.format_exc()[-600:])}
     finally:
         import shutil
         shutil.rmtree(d, True)
